@@ -37,7 +37,7 @@ def main(argv):
         print('CHECK-ERROR: %s' % e)
         return 2
     except Exception:
-        traceback.print_exc()
+        traceback.print_exc(file=sys.stdout)
         print('CHECK-ERROR: harness crashed')
         return 2
 
